@@ -43,7 +43,8 @@ def build_harness(race=False):
     # one binary per check process: concurrent checks must not overwrite each other's running harness
     out = os.path.join(BUILD, ('vh-race' if race else 'vh') + '-%d' % os.getpid())
     atexit.register(lambda: os.path.exists(out) and os.remove(out))
-    cmd = ['go', 'build', '-tags', 'verif'] + (['-race'] if race else []) + ['-o', out, './cmd/vh']
+    cover = ['-cover', '-coverpkg=verif/harness/...,github.com/wneessen/go-mail/...'] if os.environ.get('VERIF_COVER') else []   # (development: which library code do the scenarios reach)
+    cmd = ['go', 'build', '-tags', 'verif'] + (['-race'] if race else []) + cover + ['-o', out, './cmd/vh']
     p = subprocess.run(cmd, cwd=HARNESS, env=GOENV, capture_output=True, text=True)
     if p.returncode != 0:
         raise Infra('harness build failed:\n' + p.stdout + p.stderr)
